@@ -3,8 +3,23 @@
 #include "vh.hpp"
 #include <sys/wait.h>
 #include <sstream>
+#include <new>
 VH_MAIN_GLOBALS
 using namespace vh;
+
+// failpoint: the k-th allocation made through operator new after arming throws std::bad_alloc (the caller catches it and asks
+// again). Counted per process (the children are single-threaded); disarmed = plain malloc. Not in sanitizer builds.
+#if !defined(__SANITIZE_ADDRESS__) && !defined(__SANITIZE_THREAD__) && !defined(VH_NO_HEAP_PHASE)
+#define VH_FAILPOINT_NEW 1
+static long fp_fail_at = -1, fp_count = 0;
+static inline void *fp_alloc(size_t n) { if (fp_fail_at >= 0 && ++fp_count == fp_fail_at) throw std::bad_alloc(); void *p = malloc(n ? n : 1); if (!p) throw std::bad_alloc(); return p; }
+void *operator new(size_t n) { return fp_alloc(n); }
+void *operator new[](size_t n) { return fp_alloc(n); }
+void operator delete(void *p) noexcept { free(p); }
+void operator delete[](void *p) noexcept { free(p); }
+void operator delete(void *p, size_t) noexcept { free(p); }
+void operator delete[](void *p, size_t) noexcept { free(p); }
+#endif
 
 static std::string fields(const TFheGateBootstrappingParameterSet *p) {
     const LweParams *io = p->in_out_params; const TGswParams *g = p->tgsw_params; const TLweParams *t = g->tlwe_params;
@@ -46,6 +61,14 @@ int main(int argc, char **argv) {
             } else if (history == 3) {               // the other level requested (and released) first, and this level requested twice
                 TFheGateBootstrappingParameterSet *o = new_default_gate_bootstrapping_parameters(lam <= 80 ? 128 : 80); delete_gate_bootstrapping_parameters(o);
                 TFheGateBootstrappingParameterSet *q = new_default_gate_bootstrapping_parameters(lam); delete_gate_bootstrapping_parameters(q);
+            } else if (history == 5) {               // an earlier request for this level ran out of memory at its k-th allocation; the caller caught it
+#ifdef VH_FAILPOINT_NEW
+                for (int k = 1; k <= 12; k++) {
+                    fp_count = 0; fp_fail_at = k;
+                    try { TFheGateBootstrappingParameterSet *q = new_default_gate_bootstrapping_parameters(lam >= 1 && lam <= 128 ? lam : 100); fp_fail_at = -1; delete_gate_bootstrapping_parameters(q); }
+                    catch (const std::bad_alloc &) { fp_fail_at = -1; }
+                }
+#endif
             } else if (history == 4) {               // a key set of a custom parameter set generated, exported and re-imported first
                 PSet ps(4, 1024, 1, 2, 10, 2, 2, 2.44e-5, 1e-8, 0.012467);
                 TFheGateBootstrappingSecretKeySet *k = new_random_gate_bootstrapping_secret_keyset(ps.gb);
